@@ -55,6 +55,10 @@ func TestC18BlockIdentity(t *testing.T) {
 		}
 		var sched []item
 		var hist []string
+		genuineByID := map[string]*types.Block{}
+		for _, tb := range tr.Blocks {
+			genuineByID[string(tb.Block.BlockHash())] = tb.Block
+		}
 		forgedFirst := false
 		for i, tb := range tr.Blocks {
 			genuine := tb.Block
@@ -145,6 +149,17 @@ func TestC18BlockIdentity(t *testing.T) {
 				if blk, err := D.CS.GetBlock(id); err == nil {
 					if !bytes.Equal(digestOf(blk), id) {
 						t.Fatalf("%s: the node stores under identifier %x a block whose header digest is %x\nhistory: %s", where, id[:6], digestOf(blk)[:6], strings.Join(hist, " | "))
+					}
+					// ... and carries the body that header commits to: the transactions of the genuine block
+					if g := genuineByID[string(id)]; g != nil {
+						same := len(g.GetBody().GetTxs()) == len(blk.GetBody().GetTxs())
+						for k := 0; same && k < len(g.GetBody().GetTxs()); k++ {
+							same = bytes.Equal(g.GetBody().GetTxs()[k].GetHash(), blk.GetBody().GetTxs()[k].GetHash()) &&
+								bytes.Equal(blk.GetBody().GetTxs()[k].GetHash(), blk.GetBody().GetTxs()[k].CalculateTxHash())
+						}
+						if !same {
+							t.Fatalf("%s: the node stores under identifier %x (a genuine block with %d transactions) a body of %d transactions that is not that block's\nhistory: %s", where, id[:6], len(g.GetBody().GetTxs()), len(blk.GetBody().GetTxs()), strings.Join(hist, " | "))
+						}
 					}
 				}
 			}
